@@ -619,22 +619,28 @@ CO_ERR COSdoEndDownloadBlock(CO_SDO *srv)
     cmd = CO_GET_BYTE(srv->Frm, 0);
     if ((cmd & 0x01) != 0) {
         n      = (cmd & 0x1C) >> 2;
-        len    = ((uint32_t)srv->Buf.Num - n);
-        result = COObjWrBufCont(srv->Obj, srv->Node, srv->Buf.Start, len);
+        if ((uint32_t)n > srv->Buf.Num) {
+            /* more unused bytes indicated than data is buffered */
+            result = CO_ERR_OBJ_SIZE;
+        } else {
+            len    = ((uint32_t)srv->Buf.Num - n);
+            result = COObjWrBufCont(srv->Obj, srv->Node, srv->Buf.Start, len);
+        }
         if (result != CO_ERR_NONE) {
             srv->Node->Error = CO_ERR_SDO_WRITE;
             COSdoAbort(srv, CO_SDO_ERR_TOS);
+            result = CO_ERR_SDO_ABORT;
+        } else {
+            CO_SET_BYTE(srv->Frm, 0xA1, 0);
+            CO_SET_WORD(srv->Frm, 0, 1);
+            CO_SET_BYTE(srv->Frm, 0, 3);
+            CO_SET_LONG(srv->Frm, 0, 4);
         }
-        CO_SET_BYTE(srv->Frm, 0xA1, 0);
-        CO_SET_WORD(srv->Frm, 0, 1);
-        CO_SET_BYTE(srv->Frm, 0, 3);
-        CO_SET_LONG(srv->Frm, 0, 4);
 
         srv->Blk.State = BLK_IDLE;
         srv->Buf.Cur   = srv->Buf.Start;
         srv->Buf.Num   = 0;
         srv->Obj       = 0;
-        result         = CO_ERR_NONE;
     }
     return (result);
 }
